@@ -100,6 +100,8 @@ class Registry:
         self.ctors = {}        # class qual -> handler(engine, st, args, kwargs, node) -> outcomes
         self.call_hooks = []   # callables(engine, node, st) -> outcomes | None   (domain-specific call forms)
         self.attr_hooks = []
+        self.entry_hooks = []  # callables(engine, st, names) at function entry (after requires)
+        self.loop_hooks = []   # callables(engine, st) at a loop head (after havoc, before the invariant is assumed)
 
     def add(self, c):
         self.contracts.setdefault(c.qual, []).append(c)
